@@ -31,6 +31,18 @@ ALLOWED_AXIOMS = {
 # Coq's primitive machine integers / binary64 floats and the standard-library axioms that specify them; the
 # `interval` tactic computes with them (stdlib: Floats.FloatAxioms, Numbers.Cyclic.Int63.Uint63)
 ALLOWED_AXIOM_PREFIXES = ("FloatAxioms.", "PrimFloat.", "PrimInt63.", "Uint63.")
+# the same primitives print UNQUALIFIED when the audited file imports Floats / Uint63 (e.g. the binary64 instance of the
+# Nelder-Mead model): accepted by short name only when the printed type mentions the primitive types
+PRIMITIVE_SHORT_NAMES = {
+    "Prim2SF_SF2Prim", "Prim2SF_valid", "SF2Prim_Prim2SF", "abs_spec", "add_spec", "classify_spec", "compare_spec", "div_spec",
+    "eqb_spec", "frshiftexp_spec", "ldshiftexp_spec", "ltb_spec", "leb_spec", "mul_spec", "next_down_spec", "next_up_spec",
+    "normfr_mantissa_spec", "of_uint63_spec", "opp_spec", "sqrt_spec", "sub_spec", "abs", "add", "classify", "compare", "div",
+    "eqb", "float", "frshiftexp", "ldshiftexp", "ltb", "leb", "mul", "next_down", "next_up", "normfr_mantissa", "of_uint63",
+    "opp", "sqrt", "sub", "int", "land", "lor", "lsl", "lsr", "lxor", "addc", "subc", "mulc", "head0", "tail0", "diveucl", "mod",
+    "eqb_correct", "eqb_refl", "land_spec", "lor_spec", "lxor_spec", "lsl_spec", "lsr_spec", "of_to_Z", "to_Z", "of_Z",
+    "add_spec", "sub_spec", "mul_spec", "div_spec", "mod_spec", "ltb_spec", "leb_spec", "compare_def_spec", "head0_spec", "tail0_spec",
+}
+PRIMITIVE_TYPE_WORDS = re.compile(r"\b(float|PrimFloat|Prim2SF|SF2Prim|SF64\w*|spec_float|Uint63|PrimInt63|int|to_Z|wB)\b")
 FORBIDDEN_RE = re.compile(
     r"\b(Admitted|admit|Axiom|Axioms|Parameter|Parameters|Conjecture|Conjectures|Admit Obligations|"
     r"Unset Guard Checking|Unset Positivity Checking|Unset Universe Checking|bypass_check|"
@@ -164,7 +176,12 @@ def run_harness(ctx, binp, args, timeout=600, stdin=None, env=None):
     e = dict(os.environ)
     if env:
         e.update(env)
-    r = subprocess.run([binp] + [str(a) for a in args], capture_output=True, text=True, timeout=timeout, input=stdin, env=e)
+    try:
+        r = subprocess.run([binp] + [str(a) for a in args], capture_output=True, text=True, timeout=timeout, input=stdin, env=e)
+    except subprocess.TimeoutExpired as ex:
+        ctx.log(f"   harness {' '.join(str(a) for a in args)}: no result within {timeout} s")
+        return [{"kind": "harness_timeout", "timeout_s": timeout, "args": [str(a) for a in args],
+                 "stdout_tail": ((ex.stdout or b"").decode(errors="replace") if isinstance(ex.stdout, bytes) else (ex.stdout or ""))[-1000:]}]
     out = []
     for line in r.stdout.splitlines():
         line = line.strip()
@@ -186,6 +203,11 @@ def regen(ctx, only=()):
     r = subprocess.run([sys.executable, os.path.join(VERIF, "tools", "rs2coq.py"), REPO, os.path.join(COQ, "Gen")],
                        capture_output=True, text=True)
     msgs = [l for l in r.stdout.splitlines() if l.startswith("UNTRANSLATABLE")]
+    ctx.gen_msgs_all = list(msgs)
+    try:
+        ctx.gen_owner = json.load(open(os.path.join(COQ, "Gen", "gens.json"))).get("owner", {})
+    except (OSError, ValueError):
+        ctx.gen_owner = {}
     if only:
         msgs = [l for l in msgs if any(l.rstrip().endswith(f"[generator {g}]") for g in only)]
     if r.returncode not in (0, 3):
@@ -323,11 +345,24 @@ def audit_assumptions(ctx, props_v):
     axioms = set()
     closed = out.count("Closed under the global context")
     blocks = out.split("Axioms:")
+    texts = {}
     for b in blocks[1:]:
+        cur = None
         for line in b.split("\n"):
             m = re.match(r"^([A-Za-z_][\w.']*)\s*(:|$)", line)
             if m and not line.startswith(" "):
-                axioms.add(m.group(1))
+                cur = m.group(1)
+                axioms.add(cur)
+                texts[cur] = texts.get(cur, "") + line
+            elif cur is not None and line.startswith(" "):
+                texts[cur] += " " + line.strip()
+            else:
+                cur = None
+    # unqualified primitive float / int names: normalise to their qualified family when the type confirms it
+    for a in list(axioms):
+        if "." not in a and a in PRIMITIVE_SHORT_NAMES and PRIMITIVE_TYPE_WORDS.search(texts.get(a, "")):
+            axioms.discard(a)
+            axioms.add("PrimFloat." + a if "float" in texts.get(a, "").lower() or "SF" in texts.get(a, "") else "PrimInt63." + a)
     ntheorems = len(re.findall(r"^\s*Theorem\s", open(os.path.join(COQ, props_v)).read(), re.M))
     nprints = len(re.findall(r"^\s*Print Assumptions\s", open(os.path.join(COQ, props_v)).read(), re.M))
     unexpected = sorted(a for a in axioms if a not in ALLOWED_AXIOMS and not a.startswith(ALLOWED_AXIOM_PREFIXES))
@@ -351,6 +386,23 @@ def prove(ctx, pid, extra_targets=()):
         extra_targets.append(f"Props/{pid}_pins.vo")
     ok, fails, log = coq_build(ctx, [f"Props/{pid}.vo"] + list(extra_targets))
     deps = deps_of(props_v)
+    # every generated file the property imports must come from a generator that succeeded on this tree, whether or not the
+    # property's plugin listed that generator
+    owner = getattr(ctx, "gen_owner", {})
+    gen_files = {d for d in deps if d.startswith("Gen/")}
+    for d in deps:   # a deleted (failed) Gen file no longer shows in the dependency graph: find it through the import lines
+        try:
+            for mm in re.finditer(r"\bGen\.([A-Za-z0-9_]+)", open(os.path.join(COQ, d)).read()):
+                gen_files.add(f"Gen/{mm.group(1)}.v")
+        except OSError:
+            pass
+    for d in sorted(gen_files):
+        if True:
+            g = owner.get(os.path.basename(d))
+            for m in getattr(ctx, "gen_msgs_all", []):
+                if g and m.rstrip().endswith(f"[generator {g}]") and not any(m == pf[2] for pf in ctx.proof_failures):
+                    ctx.proof_failures.append((d, "translator", m))
+                    ok = False
     nlem = sum(count_lemmas(os.path.join(COQ, d)) for d in deps)
     ctx.cov["obligations"] += nlem
     ctx.cov["proof_files"] = deps
@@ -527,19 +579,22 @@ def match_finding(v, findings, prop):
 def finish(ctx, level="proof", assumptions=None):
     findings = load_findings()
     os.makedirs(os.path.join(VERIF, "evidence", "replays"), exist_ok=True)
-    # broken proof obligations / correspondence without a concrete failing input
-    if ctx.proof_failures and not any(v["found_input"] for v in ctx.violations):
-        ctx.violation("S3", "proof obligations no longer check: " +
-                      "; ".join(f"{f[0]}::{f[1]}" for f in ctx.proof_failures[:8]),
-                      {"kind": "proof", "files": sorted({f[0] for f in ctx.proof_failures})},
-                      {"failures": [list(f) for f in ctx.proof_failures]}, found_input=False)
-    elif ctx.proof_failures:
-        for v in ctx.violations:
-            v["detail"]["broken_obligations"] = [list(f) for f in ctx.proof_failures[:20]]
+    # classify every violation as known / not known first
     real, known = [], []
     for v in ctx.violations:
         f = match_finding(v, findings, ctx.prop)
         (known if f else real).append((v, f))
+    # broken proof obligations / correspondence without a concrete failing input among the NOT-known violations: the broken
+    # obligation itself is reported (a known finding firing on the same run must not mask it)
+    if ctx.proof_failures and not any(v["found_input"] for v, _ in real):
+        v = {"stage": "S3", "what": "proof obligations no longer check: " + "; ".join(f"{f[0]}::{f[1]}" for f in ctx.proof_failures[:8]),
+             "sig": {"kind": "proof", "files": sorted({f[0] for f in ctx.proof_failures})},
+             "detail": {"failures": [list(f) for f in ctx.proof_failures]}, "found_input": False}
+        ctx.violations.append(v)
+        real.append((v, None))
+    elif ctx.proof_failures:
+        for v, _ in real:
+            v["detail"]["broken_obligations"] = [list(f) for f in ctx.proof_failures[:20]]
     printed_known = set()
     for v, f in known:
         if f["id"] not in printed_known:
@@ -568,6 +623,11 @@ def finish(ctx, level="proof", assumptions=None):
         tail = "" if v["found_input"] else " no-failing-input-found"
         print(f"VIOLATION property={ctx.prop} replay={rel} # {v['what'][:300]}{tail}", flush=True)
     cov = ctx.cov
+    if ctx.proof_failures:
+        cov["broken_obligations"] = [list(f) for f in ctx.proof_failures[:40]]
+        if cov["discharged"] >= cov["obligations"]:
+            # the property theorems were not (all) re-checked on this tree: count them as open obligations
+            cov["obligations"] = cov["discharged"] + len(ctx.proof_failures)
     cov["known_findings_matched"] = sorted(printed_known)
     cov["notes"] = ctx.notes
     ev = {
